@@ -105,7 +105,7 @@ def gen_case(seed, tier):
             # instruction instrumentation with several threads): not used
             'opcode': 'store' if core.stream(seed, 'c18op').random() < float(
                 os.environ.get('VERIF_C18_STOREP', '0.2')) else False,
-            'bad_source': r.random() < 0.03,
+            'bad_source': r.random() < 0.05,
             'nsched': r.choice([12, 20, 30]) if tier == 'quick'
             else r.choice([30, 60, 100]),
             'sched_seed': r.randint(0, 10 ** 9), 'segments': None,
@@ -170,7 +170,9 @@ def gen_case(seed, tier):
                 else None)})
     if case['bad_source'] and family != 'tree':
         case['src'] += r.choice(['<dtml-if x>', '<dtml-in seq>', '</dtml-if>',
-                                 '<dtml-var "1+">'])
+                                 '<dtml-var "1+">', '<dtml-var expr="1 +">',
+                                 '<dtml-in seq sort_expr="1 +"></dtml-in>',
+                                 '<dtml-if expr="(">x</dtml-if>'])
     return case
 
 
@@ -319,6 +321,8 @@ def make_template(case):
             d[n] = cls(v['src'], **dict(v['defaults']))
     else:
         d['dflt'] = 'D'
+        if 'shexc' in case['src']:
+            d['shexc'] = ValueError(SlowStr())
         if case.get('with_sub'):
             d['sub'] = cls(c17.SUB_SRC, dflt='sd')
     if case.get('via_mapping'):
@@ -334,6 +338,16 @@ def make_template(case):
         except Exception:
             pass
     return t
+
+
+class SlowStr:
+    """turning it into text takes a while (a pre-emption point)"""
+
+    def __str__(self):
+        s = S.ACTIVE[0]
+        if s is not None:
+            s.yield_point('callback:str')
+        return 'boom'
 
 
 class Env18(E.RunEnv):
